@@ -168,7 +168,10 @@ func (c *Configuration) Sources(dir string, optionalFilename string) ([]*Configu
 			fileconfig, err = c.FileSource(filepath.Join(dir, optionalFilename))
 			if err != nil {
 				if !os.IsNotExist(err) {
-					return nil, err
+					// The file cannot be read: it is left out and
+					// the error reported, but Git's own
+					// configuration still counts.
+					return append(configs, gitconfig), err
 				}
 				fileconfig, _ = c.RevisionSource(fmt.Sprintf(":%s", optionalFilename))
 			}
